@@ -103,7 +103,6 @@ theorem RaftStatic.campaign {val : Val} {voters : List Id} {n : Nat} {t : Campai
     id := by rw [hp.cfg]; exact h.id
     idnz := h.idnz
     pv := by rw [hp.cfg]; exact h.pv
-    cq := by rw [hp.cfg]; exact h.cq
     xfer := hs.xfer
     pri := hs.pri.trans h.pri
     ro := hs.ro
